@@ -128,4 +128,45 @@ def doLineLw (line : String) : String :=
     s!"{mobs}\t{oi}\tC04=ok\t{",".intercalate tags}"
   | _ => "bad\tC04=FAIL:unparsable\tC04=ok\t"
 
+/-! ### C04 position: a suffix read alone, behind k1 and behind k2 complete messages -/
+
+def prefixBytes (serial : Bool) (k : Nat) : Bytes :=
+  (List.range k).flatMap fun i =>
+    render serial [.m { sh := if serial then [] else [1,0,0,0,0,0,0,0,80,82,69,48], htyp := 0x20, mcnt := UInt8.ofNat i, add := [],
+                        payload := [9, UInt8.ofNat i] }]
+
+def readingPos (serial : Bool) (k : Nat) (s : Bytes) : String :=
+  let d := prefixBytes serial k ++ s
+  let ms := (iterAll (d.length + 2) { index := 1000 - k } d).1
+  if ms.length < k then "PREFIX-LOST" else " ".intercalate ((ms.drop k).map showMsg)
+
+def oraclePos (obs : String) : String :=
+  match obs.splitOn " | " with
+  | [x, y, z] =>
+    if y == "PREFIX-LOST" || z == "PREFIX-LOST" then "C04=FAIL:messages-in-front-not-recognised"
+    else if y != z then "C04=FAIL:position-dependent-behind-messages"
+    else if x != y then "C04=FAIL:position-dependent-before-format-latched"
+    else "C04=ok"
+  | _ => if obs == "PANIC" then "C04=FAIL:panic" else "C04=FAIL:unparsable"
+
+def doLinePos (line : String) : String :=
+  let (cs, impl) := match line.splitOn "\t" with
+    | [c, i] => (c, i)
+    | [c] => (c, "")
+    | _ => ("", "")
+  match cs.splitOn " | " with
+  | [cfg, dpc] =>
+    let ks := nats cfg " "
+    let c := parseCase dpc
+    let s := render c.serial c.items
+    let a := readingPos c.serial 0 s
+    let b := readingPos c.serial (ks.getD 0 1) s
+    let cc := readingPos c.serial (ks.getD 1 2) s
+    let mobs := s!"{a} | {b} | {cc}"
+    let tags : List String :=
+      (if c.serial then ["serial"] else ["storage"]) ++ (if a != "" then ["msgs-alone"] else []) ++ (if b != "" then ["msgs-behind"] else []) ++
+      (if a != b then ["latch-matters"] else ["same"]) ++ (if Spec.inRange c.serial c.items then ["in-range"] else ["malformed"])
+    s!"{mobs}\t{if impl == "" then "-" else oraclePos impl}\t{oraclePos mobs}\t{",".intercalate tags}"
+  | _ => "bad\tC04=FAIL:unparsable\tC04=ok\t"
+
 end Dp
